@@ -115,6 +115,103 @@ def digest(st, skip=('events', 'counters')):
     return hashlib.blake2b('\x1f'.join(out).encode(), digest_size=16).digest()
 
 # ----------------------------------------------------------------------------
+# fast structural clone of a State (replaces copy.deepcopy: 4-5x faster on these object graphs)
+# ----------------------------------------------------------------------------
+_IMMUT = (int, bool, str, float, type(None), T, bytes, frozenset, FnItem)
+
+def fastcopy(o, memo):
+    if isinstance(o, _IMMUT) or o is MOVED or o is UNINIT:
+        return o
+    i = id(o)
+    r = memo.get(i)
+    if r is not None:
+        return r
+    t = type(o)
+    if t is Adt:
+        r = Adt(o.ty, o.variant, None, o.names, o.meta)
+        memo[i] = r
+        r.fields = {k: fastcopy(v, memo) for k, v in o.fields.items()}
+        return r
+    if t is Ref or (isinstance(o, Ref) and not hasattr(o, 'slice')):
+        r = Ref.__new__(t)
+        memo[i] = r
+        r.obj = fastcopy(o.obj, memo)
+        r.key = o.key
+        return r
+    if t is Cell:
+        r = Cell(None, o.tag)
+        memo[i] = r
+        r.v = fastcopy(o.v, memo)
+        return r
+    if t is Seq:
+        r = Seq((), o.kind, None)
+        memo[i] = r
+        r.items = [fastcopy(x, memo) for x in o.items]
+        r.tag = fastcopy(o.tag, memo)
+        return r
+    if t is Slice:
+        r = Slice.__new__(Slice)
+        memo[i] = r
+        r.seq = fastcopy(o.seq, memo)
+        r.start = o.start
+        r.end = o.end
+        return r
+    if t is list:
+        r = []
+        memo[i] = r
+        r.extend(fastcopy(x, memo) for x in o)
+        return r
+    if t is tuple:
+        r = tuple(fastcopy(x, memo) for x in o)
+        memo[i] = r
+        return r
+    if t is dict:
+        r = {}
+        memo[i] = r
+        for k, v in o.items():
+            r[fastcopy(k, memo)] = fastcopy(v, memo)
+        return r
+    if t is set:
+        r = set(fastcopy(x, memo) for x in o)
+        memo[i] = r
+        return r
+    if t is Opaque:
+        r = Opaque(o.what, None)
+        memo[i] = r
+        r.payload = fastcopy(o.payload, memo)
+        return r
+    d = getattr(o, '__dict__', None)
+    if d is not None:
+        r = t.__new__(t)
+        memo[i] = r
+        rd = r.__dict__
+        for k, v in d.items():
+            rd[k] = fastcopy(v, memo)
+        return r
+    slots = getattr(t, '__slots__', None)
+    if slots is not None:
+        r = t.__new__(t)
+        memo[i] = r
+        for cls in t.__mro__:
+            for k in getattr(cls, '__slots__', ()):
+                if hasattr(o, k):
+                    setattr(r, k, fastcopy(getattr(o, k), memo))
+        return r
+    return copy.deepcopy(o, memo)
+
+def clone_state(st):
+    """Structural clone; append-only logs of immutable tuples are copied shallowly."""
+    memo = {}
+    new = State.__new__(State)
+    memo[id(st)] = new
+    for k, v in st.__dict__.items():
+        if k in ('events', 'pc', 'lemmas'):
+            new.__dict__[k] = list(v)
+        else:
+            new.__dict__[k] = fastcopy(v, memo)
+    return new
+
+# ----------------------------------------------------------------------------
 class Trail:
     __slots__ = ('parent', 'label', 'choices')
     def __init__(self, parent, label, choices):
@@ -193,22 +290,34 @@ class Explorer:
             self.h.init(m)
         self.h.after_step(m, label)
 
-    def explore(self):
-        import random
-        rnd = random.Random(self.seed)
-        st0 = State()
-        st0.sched = Sched()
-        # frontier entries: (state snapshot, transition, choice prefix, trail, depth)
-        work = [(st0, ('init', None, 'init'), [], None, 0)]
+    # events that neither touch state shared between tasks nor are looked at by monitors
+    INVISIBLE = ('rpc_return', 'task_done', 'timer_armed', 'htlc_response')
+
+    def invisible(self, m, nev0):
+        hook = getattr(self.h, 'invisible_event', None)
+        for ev in m.st.events[nev0:]:
+            k = ev[0]
+            if k in self.INVISIBLE:
+                continue
+            if k == 'rpc_call' and ev[2] != 'pay':
+                continue
+            if hook is not None and hook(ev):
+                continue
+            return False
+        return True
+
+    def run_transition(self, st, tr, trail):
+        """All data branches of one transition from snapshot st.
+        Returns [(outcome, machine, trail, invisible?)]."""
+        out = []
+        work = [[]]
+        label = tr[2]
         while work:
-            if self.deadline and time.time() > self.deadline:
-                self.inconclusive.append('time budget exhausted with %d frontier entries' % len(work))
-                break
-            st, tr, prefix, trail, depth = work.pop()
+            prefix = work.pop()
             ch = Chooser(prefix)
-            m = self.machine(copy.deepcopy(st), ch)
-            label = tr[2]
-            # env transitions are closures bound to objects of the *snapshot*; re-resolve by label
+            m = self.machine(clone_state(st), ch)
+            nev0 = len(m.st.events)
+            tr_run = tr
             if tr[0] == 'env':
                 fn = None
                 for lab, f in self.h.env_transitions(m):
@@ -219,8 +328,6 @@ class Explorer:
                     self.inconclusive.append('env transition %s vanished on re-execution' % label)
                     continue
                 tr_run = ('env', fn, label)
-            else:
-                tr_run = tr
             viol = None
             try:
                 self.run_step(m, tr_run)
@@ -237,57 +344,97 @@ class Explorer:
             except BoundExceeded as e:
                 outcome = 'bound'
                 self.inconclusive.append('bound: %s (at %s)' % (e, label))
+            except sym.Unknown as e:
+                outcome = 'unsupported'
+                self.inconclusive.append('solver: %s (at %s)' % (e, label))
             except Panic as e:
-                # a panic outside any task (environment / harness code)
                 outcome = 'unsupported'
                 self.inconclusive.append('panic outside a task: %s (at %s)' % (e.msg, label))
             self.stats.paths_in_steps += 1
             self.bodies |= m.bodies_run
             self.intrinsics |= m.intrinsics_hit
-            for alt in ch.alts:
-                work.append((st, tr, alt, trail, depth))
+            work.extend(ch.alts)
             ntrail = Trail(trail, label, list(ch.labels))
-            if outcome == 'violation':
-                self.violations.append((viol, ntrail, m))
-                if self.stop_on_first:
-                    return
-                continue
-            if outcome != 'ok':
-                if len(self.inconclusive) > 50:
+            inv = outcome == 'ok' and tr[0] == 'task' and self.invisible(m, nev0)
+            out.append((outcome, m, ntrail, inv, viol))
+        return out
+
+    def explore(self):
+        import random
+        rnd = random.Random(self.seed)
+        st0 = State()
+        st0.sched = Sched()
+        # frontier: states to expand  (state, trail, depth); the initial pseudo-state expands by 'init'
+        work = [(st0, None, 0, [('init', None, 'init')])]
+        por = getattr(self.h, 'por', True)
+        while work:
+            if self.deadline and time.time() > self.deadline:
+                self.inconclusive.append('time budget exhausted with %d frontier entries' % len(work))
+                break
+            if len(self.inconclusive) > 50:
+                break
+            st, trail, depth, trs = work.pop()
+            results = []
+            chosen = None
+            for tr in trs:
+                res = self.run_transition(st, tr, trail)
+                results.append((tr, res))
+                if por and tr[0] == 'task' and res and all(r[3] for r in res):
+                    # an invisible, independent transition: exploring it alone loses no behaviour
+                    chosen = (tr, res)
                     break
-                continue
-            self.stats.transitions += 1
-            d = digest(m.st)
-            if d in self.seen:
-                self.stats.revisits += 1
-                continue
-            self.seen.add(d)
-            self.stats.states += 1
-            if depth + 1 > self.stats.max_depth:
-                self.stats.max_depth = depth + 1
+            if chosen is not None:
+                results = [chosen]
+                self.stats.por_singletons = getattr(self.stats, 'por_singletons', 0) + 1
+            succs = []
+            for tr, res in results:
+                for outcome, m, ntrail, inv, viol in res:
+                    if outcome == 'violation':
+                        self.violations.append((viol, ntrail, m))
+                        if self.stop_on_first:
+                            return
+                        continue
+                    if outcome != 'ok':
+                        continue
+                    self.stats.transitions += 1
+                    d = digest(m.st)
+                    if d in self.seen:
+                        self.stats.revisits += 1
+                        continue
+                    self.seen.add(d)
+                    self.stats.states += 1
+                    if depth + 1 > self.stats.max_depth:
+                        self.stats.max_depth = depth + 1
+                    succs.append((m, ntrail))
             if self.stats.states > self.max_states:
                 self.inconclusive.append('state budget %d exceeded' % self.max_states)
                 break
-            trs = self.transitions(m)
-            if not trs:
-                self.stats.quiescent += 1
-                try:
-                    self.h.on_quiescent(m)
-                except Violation as v:
-                    self.violations.append((v, ntrail, m))
-                    if self.stop_on_first:
-                        return
-                if len(self.samples) < 6:
-                    self.samples.append({'trail': ntrail.to_list(), 'final_events': [list(map(_short, e)) for e in m.events[-40:]]})
-                continue
-            if depth + 1 >= self.max_depth:
-                self.inconclusive.append('depth bound %d reached at %s' % (self.max_depth, label))
-                continue
-            if self.seed:
-                rnd.shuffle(trs)
-            snap = m.st
-            for t in trs:
-                work.append((snap, t, [], ntrail, depth + 1))
+            for m, ntrail in succs:
+                if hasattr(self.h, 'is_terminal') and self.h.is_terminal(m):
+                    self.stats.quiescent += 1
+                    if len(self.samples) < 6:
+                        self.samples.append({'trail': ntrail.to_list(), 'final_events': [list(map(_short, e)) for e in m.events[-40:]]})
+                    continue
+                ntrs = self.transitions(m)
+                if not ntrs:
+                    self.stats.quiescent += 1
+                    try:
+                        self.h.on_quiescent(m)
+                    except Violation as v:
+                        self.violations.append((v, ntrail, m))
+                        if self.stop_on_first:
+                            return
+                    if len(self.samples) < 6:
+                        self.samples.append({'trail': ntrail.to_list(), 'final_events': [list(map(_short, e)) for e in m.events[-40:]]})
+                    continue
+                if depth + 1 >= self.max_depth:
+                    self.inconclusive.append('depth bound %d reached' % self.max_depth)
+                    continue
+                if self.seed:
+                    rnd.shuffle(ntrs)
+                # task polls first: they are the candidates for invisible singleton steps
+                ntrs.sort(key=lambda t: 0 if t[0] == 'task' else 1)
+                work.append((m.st, ntrail, depth + 1, ntrs))
 
 def _short(x):
     if isinstance(x, T):
